@@ -116,6 +116,12 @@ chk("C03", "model_checking",
     "explicit-state BFS over StateDB operation sequences (replay states, reference-model dedup) + exhaustive bounded call-tree enumeration + ABCI store-diff differential",
     "DESIGN.md §5 C03", "seqx-replay")
 
+chk("C08", "model_checking",
+    "Exhaustive enumeration of (history of <= 2 blocks over a 20-kind tx alphabet) x (1-2 requests from a ~200-request alphabet: eth_call / estimateGas of 18 programs incl. create, selfdestruct, storage clear with refund, precompile transfer / approve / delegate, gas-dependent branch, 63/64 chain; every gRPC query method of evm / feemarket / cpc / vauth with in-range, out-of-range and malformed arguments; CheckTx new / recheck of 18 tx kinds; Simulate; TraceTx / TraceBlock with several tracers) x 3 interleaving points around block h+1 (before FinalizeBlock, between FinalizeBlock and Commit, after Commit) on the real app through BaseApp.Query / CheckTx / Simulate. Oracles: full dump of the root multistore, LastCommitID and check state byte-equal before and after each request; twin run without requests gives the same AppHash and tx results; answers pinned to height h equal at all three points; for predictive calls the delivered transaction returns the same data, logs and gas used, and delivery with the estimate as gas limit does not run out of gas. Quick: 3 902 cases, 60 states, 18 266 requests.",
+    "Sequential interleavings only (no request concurrent with FinalizeBlock); JSON-RPC layer not included; answers compared on the named fields only; the mechanism-level clause 'handler leaves its query-context stores unchanged' is stricter than the property text (BaseApp discards the query context) and exempts tracing.",
+    "exhaustive bounded histories x request interleaving points on the real app, twin-run differential + store-dump equality + prediction against delivery",
+    "DESIGN.md §5 C08", "seqx-replay")
+
 NOT_YET = "check not built yet in this round (planned, see DESIGN.md §9)"
 
 def main():
